@@ -1370,7 +1370,8 @@ def classify(asm, res, canary_name):
             seen_ = 0
             while sp_ is not None and seen_ < 12:
                 fn_ = sp_.get('file_name') or ''
-                if not (fn_.startswith('/rustc/') or '/library/' in fn_ or 'vstd' in fn_):
+                # (vstd's own files are reported with a path relative to vstd, e.g. `std_specs/option.rs`)
+                if fn_.startswith('/') and not (fn_.startswith('/rustc/') or '/library/' in fn_ or 'vstd' in fn_):
                     return sp_
                 sp_ = (sp_.get('expansion') or {}).get('span')
                 seen_ += 1
